@@ -12,13 +12,20 @@ META = dict(
               "on a line-by-line model of state.py; the model's executable step function is run inside Coq (vm_compute) on the "
               "same operation histories as the real State and compared result by result; from-scratch oracle on the implementation; "
               "the fork rule of State.__setitem__ and the combination rule of State.revert(subset) are recognised on every run (source "
-              "shape + probes on a real State, fail closed) and select the executable instance of the tie",
+              "shape + probes on a real State, fail closed) and select the executable instance of the tie; scoped fork-mode switches "
+              "(`with state.auto_fork(m)`, also left by an exception) are a derived form of the model (State/StateScoped.v: set mode, body up to "
+              "the first error, previous mode always put back) to which the theorems are lifted, executed through the real context manager and "
+              "compared event by event (results + auto_fork_type + _last_fork inside and after every block), plus an implementation-side oracle "
+              "against the documented scoping written out",
     level_text="For every value type, every well-formed graph, every history of get/set/put/revert/partial revert/clone/mode "
                "switch/precompute/clear on any number of states: a successful read is the from-scratch evaluation of the current "
                "independent values, a read fails (input error) iff that evaluation needs an unset independent value, reads are "
                "transparent, states do not interfere. Proved in full for the code as it is (since 27ac519 an assignment made with "
                "auto-fork off drops the pending fork): the only hypothesis on a history is the documented precondition of "
-               "per-individual reverts, and none at all for histories of full reverts.",
+               "per-individual reverts, and none at all for histories of full reverts. The same for histories with scoped mode switches "
+               "`with state.auto_fork(m): ...` nested in any way and left by exceptions caught by the caller: every read executed anywhere "
+               "(inside a block, after a failed block) is the from-scratch value, the block always puts the previous mode back, such a history "
+               "reaches the store of a plain history (its flattening) and C02's later-history simulation holds for it.",
     level_note="Trusted: Coq kernel (no axioms: all theorems closed under the global context); the hand-written model's tie is the "
                "executed correspondence (toy graphs built as real LinkedVariables), not a translation; graph well-formedness is a "
                "hypothesis (C15) checked by vm_compute on every graph used; F_mix (row-wise node functions) is a hypothesis for "
@@ -691,13 +698,25 @@ def main(run: Run):
                 "put/read/revert steps, clones, mode switches, precompute) and a malformed stream (30%: unset reads, unknown names, "
                 "non-settable assignments, reverts without fork, bad indices); 3.5% of the steps taken while a fork is pending have the "
                 "shape of the former finding F1 (auto-fork off, assignment, reads, full or partial revert, reads; counted in "
-                "f1_shaped_toy_histories); every result + a final is_variable_set sweep over all "
+                "f1_shaped_toy_histories); 7% of the steps are `with auto_fork(m)` blocks run through the REAL context manager (m in None/REF/COPY, "
+                "bodies of 0-6 operations incl. nested blocks up to depth 3, clones, mode switches; 60% of the top-level bodies contain an operation "
+                "that raises — unknown name, non-settable assignment, read needing an unset variable, accumulating put on an unset variable, "
+                "revert without fork, index out of range — whose exception leaves the block(s) and is caught), usually entered with a fork "
+                "pending and followed by look / assignment / reads / full or per-individual revert / reads (counted in scoped_toy_histories); 54 "
+                "directed histories of that shape (previous mode x block mode x way to raise) + nested blocks on two states; auto_fork_type and "
+                "_last_fork are recorded at every look, just inside and just after every block; every result + a final is_variable_set sweep over all "
                 "nodes compared with the model inside Coq; from-scratch oracle after every operation. Non-trivial = the history has a "
                 "read after a second assignment to the same state, after a revert or after a clone; distinct by (graph, history).")
     run.explanation = ("The theorems quantify over all graphs/histories/value types of the model; the tie runs the model's own step "
                        "function inside Coq on the histories executed by the real State (results, error classes, cache contents and "
-                       "the discipline flags evaluated on the real _last_fork/_values must all agree); the oracle compares every read "
-                       "of the implementation with a fresh State holding the same independent values, bit for bit.")
+                       "the discipline flags evaluated on the real _last_fork/_values must all agree; for histories with scoped blocks the "
+                       "model's trace — executed operations, skipped ones absent, auto_fork_type and the full _last_fork at every look / block "
+                       "entry / block exit — must equal the recorded one entry by entry); the oracle compares every read "
+                       "of the implementation with a fresh State holding the same independent values, bit for bit, also after every "
+                       "operation inside a block; every history with blocks is re-executed with the documented scoping written out by the "
+                       "harness (set the mode; finally: put the previous one back) and must give the same events; on fitted shipped models an "
+                       "exception is raised inside `with state.auto_fork(None)` (directly, and at the real call site "
+                       "TimeReparametrizedModel.put_individual_parameters) and sampler-shaped put/read/revert steps follow.")
     run.assumptions += [
         "WF g: ancestors/children delivered by dag.py are the transitive closures in topological order (C15); recomputed by wf_b on every graph of the tie",
         "F_mix: node functions of per-individual nodes act row by row (C07); only used for histories containing a partial revert",
@@ -709,6 +728,8 @@ def main(run: Run):
         + ("recognised on the tree under test (source shape + probes)" if FX == CLAIMED_FX else
            "NOT the case on the tree under test — tie made against fx = false, the theorems do not apply"),
     ]
+    run.assumptions.append("a scoped block is `with state.auto_fork(m)` whose exception, if any, is caught by the caller (top level of the history); "
+                           "generator-based context managers and `with` are Python's (trusted); exceptions raised by __enter__/__exit__ themselves are not modelled")
     run.trusted += ["harness/props/state_toy.py: toy-graph builder, executor and canonicalisation of results (exact integers / inf / nan)",
                     "torch element-wise kernels, index_put, deepcopy (modelled, not verified)"]
     directed(run)
